@@ -7,6 +7,7 @@ import (
 
 	simplefixgo "github.com/b2broker/simplefix-go"
 	"github.com/b2broker/simplefix-go/session"
+	fixgen "github.com/b2broker/simplefix-go/tests/fix44"
 	"github.com/b2broker/simplefix-go/utils"
 	"pgregory.net/rapid"
 
@@ -25,6 +26,7 @@ type HSpec struct {
 	Mod    int    `json:"mod"`    // outgoing: refuse when callIndex % Mod == Rem (Mod 0: never)
 	Rem    int    `json:"rem"`
 	Modify bool   `json:"modify"` // outgoing: the handler changes the message (TargetCompID) before looking at it
+	Body   bool   `json:"body"`   // a modifying handler changes a body field in place through the generated setter (Text of MarketDataRequestReject / Reject / Logout) instead of the header
 }
 
 type C19Case struct {
@@ -52,6 +54,7 @@ func genC19(t *rapid.T) *C19Case {
 		}
 		if h.Dir == "out" && rapid.IntRange(0, 9).Draw(t, "hModifies") < 2 {
 			h.Modify = true
+			h.Body = rapid.Bool().Draw(t, "hBody")
 		}
 		if h.Dir == "out" && rapid.IntRange(0, 9).Draw(t, "hRefuses") < 4 {
 			h.Mod = rapid.IntRange(1, 4).Draw(t, "hMod")
@@ -86,6 +89,34 @@ func genC19(t *rapid.T) *C19Case {
 	return c
 }
 
+// setText changes the Text field of the body in place, the way an application
+// handler stamps a message it was handed; false if the type has no such field.
+func setText(msg simplefixgo.SendingMessage, v string) bool {
+	switch m := msg.(type) {
+	case *fixgen.MarketDataRequestReject:
+		m.SetText(v)
+	case *fixgen.Reject:
+		m.SetText(v)
+	case *fixgen.Logout:
+		m.SetText(v)
+	default:
+		return false
+	}
+	return true
+}
+
+func textOf(msg simplefixgo.SendingMessage) (string, bool) {
+	switch m := msg.(type) {
+	case *fixgen.MarketDataRequestReject:
+		return m.Text(), true
+	case *fixgen.Reject:
+		return m.Text(), true
+	case *fixgen.Logout:
+		return m.Text(), true
+	}
+	return "", false
+}
+
 func checkC19(c *C19Case, rec *evid.Rec) (vs []pbt.Violation) {
 	calls := make([]int, len(c.Handlers))
 	register := func(before bool) func(h *simplefixgo.DefaultHandler, log *rig.EventLog) {
@@ -103,13 +134,19 @@ func checkC19(c *C19Case, rec *evid.Rec) (vs []pbt.Violation) {
 				if hs.Dir == "out" {
 					h.HandleOutgoing(mt, func(msg simplefixgo.SendingMessage) bool {
 						if hs.Modify {
-							msg.HeaderBuilder().SetFieldTargetCompID(fmt.Sprintf("MOD%d", i))
+							if !(hs.Body && setText(msg, fmt.Sprintf("MOD%d", i))) {
+								msg.HeaderBuilder().SetFieldTargetCompID(fmt.Sprintf("MOD%d", i))
+							}
 						}
 						b, _ := msg.ToBytes()
 						k := calls[i]
 						calls[i]++
 						refuse := hs.Mod > 0 && k%hs.Mod == hs.Rem
 						log.Add(rig.Event{Kind: "handler:out", Name: fmt.Sprint(i), Seq: msg.HeaderBuilder().MsgSeqNum(), Err: refuse, Bytes: append([]byte(nil), b...)})
+						if txt, ok := textOf(msg); ok {
+							// what the handler reads from the object it was handed
+							log.Add(rig.Event{Kind: "handler:view", Name: fmt.Sprint(i), Seq: msg.HeaderBuilder().MsgSeqNum(), Bytes: []byte(txt)})
+						}
 						return !refuse
 					})
 				} else {
@@ -159,6 +196,7 @@ func checkC19(c *C19Case, rec *evid.Rec) (vs []pbt.Violation) {
 		saveOK, saveFail bool
 		saveAt           int
 		handlerCalls     []rig.Event
+		views            []rig.Event
 		wire             []byte
 		wireAt           int
 		msgType          string
@@ -232,6 +270,12 @@ func checkC19(c *C19Case, rec *evid.Rec) (vs []pbt.Violation) {
 			if t, ok := ref.Lookup(e.Bytes, rig.TagMsgType); ok {
 				a.msgType = t
 			}
+		case "handler:view":
+			if firstWire[e.Seq] {
+				continue
+			}
+			a := get(e.Seq)
+			a.views = append(a.views, e)
 		case "wire":
 			n := atoi(rig.Decode(e.Bytes).Seq)
 			if firstWire[n] {
@@ -323,6 +367,20 @@ func checkC19(c *C19Case, rec *evid.Rec) (vs []pbt.Violation) {
 					break
 				}
 			}
+			// and what they read from the object (the Text field) is what the wire carries
+			vfrom := 0
+			for k, hv := range a.views {
+				if hs := c.Handlers[atoi(hv.Name)]; hs.Modify && hs.Body {
+					vfrom = k
+				}
+			}
+			wireText, _ := ref.Lookup(a.wire, rig.TagText)
+			for _, hv := range a.views[min(vfrom, len(a.views)):] {
+				if string(hv.Bytes) != wireText {
+					vs = append(vs, pbt.V("handler-read-different-field", "message #%d: outgoing handler %s read Text=%q from the message it was handed, the transmitted message carries Text=%q: %s", n, hv.Name, hv.Bytes, wireText, ref.Show(a.wire)))
+					break
+				}
+			}
 		} else if !refused && !a.saveFail && len(a.handlerCalls)+b2i(a.saveOK) > 0 {
 			vs = append(vs, pbt.V("not-sent-without-reason", "message #%d was saved and accepted by every handler but never transmitted", n))
 		}
@@ -398,6 +456,9 @@ func checkC19(c *C19Case, rec *evid.Rec) (vs []pbt.Violation) {
 		rec.Hist("with-save-failure")
 	}
 	for _, hs := range c.Handlers {
+		if hs.Modify && hs.Body {
+			rec.Hist("body-modifying-outgoing-handler")
+		}
 		if hs.Modify {
 			rec.Hist("modifying-outgoing-handler")
 			break
